@@ -968,7 +968,7 @@ func (c *collector) corpus() {
 	unowned := Cluster{NextUID: 100, HasInv: true, Inv: []int{0, 1}, Objs: []CObj{
 		{ID: 0, UID: 1, Owner: ONone, Keep: true, Ver: 1}, CObj{ID: 1, UID: 2, Owner: OOther, Keep: true, Ver: 1}.Applied()}}
 	c.fixedHistory(u, unowned, []fixedRun{{opts: Opts{Destroy: true, Prune: true, Policy: PAdoptAll}}})
-	for _, kv := range []int{3, 4, 7, 9} {
+	for _, kv := range []int{3, 4, 5, 7} {
 		ea, eb := Entry("ConfigMap", invNS, "cm-a"), Entry("ConfigMap", invNS, "cm-b")
 		ea.KeepVar, eb.KeepVar = kv, kv
 		uk := NewUniverse([]UEntry{ea, eb})
